@@ -1391,6 +1391,10 @@ def loss_walk(prog: Program) -> RuleResult:
                     if sp is not None:
                         events["branch"].append((sp, walk.value(tgt.slice), walk.value(st.value)))
                         return True
+                # a store into a local record: the record is ONE object, whoever holds it sees the change
+                if isinstance(inner, ast.Name) and isinstance(walk.env.get(inner.id), dict) and isinstance(tgt.slice, ast.Constant):
+                    walk.env[inner.id][tgt.slice.value] = walk.value(st.value)
+                    return True
                 # deeper stores (colour of an existing branch) do not concern the walk
                 depth = 0
                 cur = tgt
